@@ -262,7 +262,7 @@ def gen_moasha_case(rng):
     grace = rng.choice([1, 1, 2, 3])
     max_t = rng.choice([9, 16, 27, 30, 81])
     brackets = rng.randint(1, 3)
-    prio = rng.choice(["nd", "nd1", "fixed", "linear", "ndk", "ndk"])
+    prio = rng.choice(["nd", "nd1", "fixed", "linear", "ndk", "ndk", "default", "default"])
     max_num_samples = rng.choice([1, 2, 3, 5])
     ntrials = rng.randint(2, 9)
     key_order = rng.choice([0, 0, rng.randint(1, 10 ** 6)])
@@ -271,7 +271,7 @@ def gen_moasha_case(rng):
     assign = {t: rng.randrange(brackets) for t in range(ntrials)}
     grid = rng.choice([3, 5, 100, -1])   # -1: one huge coordinate shared by all reports + small differences elsewhere
     hugecol = rng.randrange(nmet)
-    hugeval = rng.choice([3e17, 2.0 ** 60, 1e300] + ([float("inf")] * 2 if prio in ("nd", "nd1", "ndk") else []))
+    hugeval = rng.choice([3e17, 2.0 ** 60, 1e300] + ([float("inf")] * 2 if prio in ("nd", "nd1", "ndk", "default") else []))
     stride_mode = rng.choice([0, 0, 3, 9])
     evs = []
     alive = list(range(ntrials))
@@ -311,14 +311,23 @@ def moasha_sequences(ctx, replay):
     pcases, pmeta = [], []
     for spec in specs:
         nmet = len(spec["metrics"])
-        inner = {"nd": lambda: NonDominatedPriority(), "nd1": lambda: NonDominatedPriority(dim=nmet - 1),
+        inner = {"nd": lambda: NonDominatedPriority(), "default": lambda: NonDominatedPriority(),
+                 "nd1": lambda: NonDominatedPriority(dim=nmet - 1),
                  "ndk": lambda: NonDominatedPriority(max_num_samples=spec.get("max_num_samples", 2)),
                  "fixed": lambda: FixedObjectivePriority(dim=nmet - 1),
                  "linear": lambda: LinearScalarizationPriority()}[spec["prio"]]()
         rec = RecordingPriority(inner)
-        sch = MOASHA(config_space={"x": randint(0, 10)}, metrics=spec["metrics"], mode=spec["mode"],
-                     time_attr="epoch", multiobjective_priority=rec, max_t=spec["max_t"],
-                     grace_period=spec["grace"], reduction_factor=spec["rf"], brackets=spec["brackets"])
+        if spec["prio"] == "default":
+            # the scheduler's own default priority (no object passed): schedulers created one after another in this
+            # process, with different numbers of metrics, must not influence each other. Nothing can be recorded
+            # from inside; the calls are reconstructed below from the reference rung bookkeeping
+            sch = MOASHA(config_space={"x": randint(0, 10)}, metrics=spec["metrics"], mode=spec["mode"],
+                         time_attr="epoch", max_t=spec["max_t"],
+                         grace_period=spec["grace"], reduction_factor=spec["rf"], brackets=spec["brackets"])
+        else:
+            sch = MOASHA(config_space={"x": randint(0, 10)}, metrics=spec["metrics"], mode=spec["mode"],
+                         time_attr="epoch", multiobjective_priority=rec, max_t=spec["max_t"],
+                         grace_period=spec["grace"], reduction_factor=spec["rf"], brackets=spec["brackets"])
         mode = spec["mode"] or "min"
         signs = [(1.0 if (mode if isinstance(mode, str) else mode[i]) == "min" else -1.0) for i in range(nmet)]
         stopped = set()
@@ -350,7 +359,11 @@ def moasha_sequences(ctx, replay):
                 rnd.shuffle(items)
             result = dict(items)
             ncalls = len(rec.calls)
-            dec = sch.on_trial_result(trial, result)
+            try:
+                dec = sch.on_trial_result(trial, result)
+            except Exception as e:   # a legal report must be answered, not raise
+                viol = dict(event=[t, it, vals], kind="exception", exception="%s: %s" % (type(e).__name__, str(e)[:200]))
+                break
             decisions.append(dec)
             signed = [s * v for s, v in zip(signs, vals)]
             reported_vectors.add(tuple(signed))
@@ -363,6 +376,8 @@ def moasha_sequences(ctx, replay):
                     ref_expected = [list(v) for v in ref_rungs[bi][ms].values()]
                     ref_rungs[bi][ms][t] = tuple(signed)
                     break
+            if spec["prio"] == "default" and ref_expected:
+                rec(np.array([list(v) for v in ref_expected] + [signed], dtype=float))
             called = len(rec.calls) > ncalls
             if viol is None and ref_expected is not None and (bool(ref_expected) != called or (
                     called and sorted(map(tuple, rec.calls[-1][0][:-1])) != sorted(map(tuple, ref_expected)))):
@@ -384,7 +399,7 @@ def moasha_sequences(ctx, replay):
                 # among all trials recorded at that rung, itself included, is within the best 1/rf fraction'
                 X = np.array(mat, dtype=float)
                 n = len(mat)
-                if spec["prio"] in ("nd", "nd1", "ndk"):
+                if spec["prio"] in ("nd", "nd1", "ndk", "default"):
                     layers = brute_layers(X)
                     layer_of = {j: k for k, l in enumerate(layers) for j in l}
                     own = n - 1
@@ -413,6 +428,13 @@ def moasha_sequences(ctx, replay):
         ctx.h("moasha_prio", spec["prio"])
         ctx.h("moasha_decisions", "STOP", decisions.count("STOP"))
         ctx.h("moasha_decisions", "CONTINUE", decisions.count("CONTINUE"))
+        if viol is not None and viol.get("kind") == "exception":
+            ctx.violation("property", "MOASHA.on_trial_result raised %s for the legal report %s (priority=%s, %d metrics; "
+                          "schedulers created earlier in this process must not matter)" % (
+                              viol["exception"], viol["event"], spec["prio"], nmet),
+                          case=dict(kind="moasha", spec=spec, first_bad=viol),
+                          signature=dict(scheduler="MOASHA", defect="on_trial_result_raises", priority=spec["prio"]))
+            continue
         if viol is not None and viol.get("kind") == "competitors":
             ctx.violation("property",
                           "MOASHA ranked a trial reaching a rung against %s but %s" % (viol["matrix"], viol["expected"]),
